@@ -715,6 +715,12 @@ def st_g1_complement(L, ex, a, I):
     ex.add(mvar(ex, (gt,)) != 0)
     ge_write(ex, a[0], elem(ex, 'g1', ZERO, Poly.gen(gt), False))
 
+def st_g2_complement(L, ex, a, I):
+    """unsafe_map_bytes_to_G2complement (test helper of the repository): a point of E2 outside G2"""
+    gt = new_gen(ex, 'ct')
+    ex.add(mvar(ex, (gt,)) != 0)
+    ge_write(ex, a[0], elem(ex, 'g2', ZERO, Poly.gen(gt), False))
+
 def st_pippenger(kind):
     def f(L, ex, a, I):
         out, pts, n, scs, nbits, scratch = a
@@ -892,6 +898,7 @@ def install(L):
     S['@POINTonE2_in_G2'] = st_in_group('g2')
     S['@map_to_g1'] = st_map_to_g1
     S['@unsafe_map_bytes_to_G1complement'] = st_g1_complement
+    S['@unsafe_map_bytes_to_G2complement'] = st_g2_complement
     S['@blst_p1s_mult_pippenger'] = st_pippenger('g1')
     S['@blst_p1s_mult_pippenger_scratch_sizeof'] = lambda L, ex, a, I: 64
     S['@miller_loop_n'] = st_miller_loop_n
